@@ -61,7 +61,8 @@ func (e *elHelper) ReplaceAllContent(s string, f func(content string) (string, e
 }
 
 func NewQuote() Helper {
-	return newEl(regexp.MustCompile("\\${[^{}]*}"), 2, 1)
+	//a placeholder holds no further placeholder (the innermost one is expanded first), but its default may be an expression: ${key:#{...}}
+	return newEl(regexp.MustCompile("\\${(?:[^{}]|#{[^{}]*})*}"), 2, 1)
 }
 
 func NewExpr() Helper {
